@@ -621,13 +621,36 @@ func c34MaxBody(c *Ctx) {
 		fail(Undecided, "result is not a loop-carried accumulator: "+Path(retOperand(rets[0].(*ssa.Return), 0)))
 		return
 	}
-	// element index: every update value is values[i]
+	// element index: every update value is values[i]. The accumulator may merge through inner phis
+	// (`if v <= acc { continue }; acc = v` puts one on the continue edge): judge the leaves, each on the edge
+	// on which it enters the merge.
 	var idx ssa.Value
-	for i, e := range acc.Edges {
-		e = c34Strip(e)
-		if e == ssa.Value(acc) {
-			continue
+	type leafEdge struct {
+		v        ssa.Value
+		from, to *ssa.BasicBlock
+	}
+	var leaves []leafEdge
+	seenPhi := map[*ssa.Phi]bool{}
+	var collect func(p *ssa.Phi)
+	collect = func(p *ssa.Phi) {
+		if seenPhi[p] {
+			return
 		}
+		seenPhi[p] = true
+		for i, e := range p.Edges {
+			e = c34Strip(e)
+			if q, isPhi := e.(*ssa.Phi); isPhi {
+				if q != acc {
+					collect(q)
+				}
+				continue
+			}
+			leaves = append(leaves, leafEdge{e, p.Block().Preds[i], p.Block()})
+		}
+	}
+	collect(acc)
+	for _, lf := range leaves {
+		e := lf.v
 		if k, ok := e.(*ssa.Const); ok {
 			if k.Value == nil || constant.Sign(k.Value) != 0 {
 				fail(Violated, "the accumulator does not start at 0: "+Path(k))
@@ -649,9 +672,14 @@ func c34MaxBody(c *Ctx) {
 		// the update edge is taken only behind elem > acc
 		val := e
 		removed := c34Edges(fn, func(r c34Rel) bool {
-			return r.Op == ">" && c34Strip(r.L) == val && c34Strip(r.R) == ssa.Value(acc)
+			// (the element may be loaded once for the test and once for the assignment: same element, two loads)
+			if r.Op != ">" || (c34Strip(r.L) != val && Path(c34Strip(r.L)) != Path(val)) {
+				return false
+			}
+			_, rIsAcc := c34Strip(r.R).(*ssa.Phi)
+			return rIsAcc && seenPhi[c34Strip(r.R).(*ssa.Phi)]
 		})
-		if c34EdgeUnguarded(fn, removed, acc.Block().Preds[i], acc.Block()) {
+		if c34EdgeUnguarded(fn, removed, lf.from, lf.to) {
 			fail(Violated, "the accumulator is overwritten with an element without the dominating test `element > accumulator` (not a maximum)")
 			return
 		}
@@ -660,36 +688,44 @@ func c34MaxBody(c *Ctx) {
 		fail(Violated, "the accumulator is never updated from the arguments")
 		return
 	}
-	// the index is the range counter: phi(-1, idx)+1 tested against len(values)
+	// the element index is the counter of the one loop over the argument slice, which runs from 0 in steps of 1:
+	// `range values` (phi(-1|i)+1 tested against len) or `for i := 0; i < len(values); i++`
 	okRange := false
-	if bo, ok := idx.(*ssa.BinOp); ok && bo.Op == token.ADD {
-		if cnt, ok := bo.X.(*ssa.Phi); ok {
-			startOK, stepOK := false, true
-			for _, e := range cnt.Edges {
-				if k, ok := e.(*ssa.Const); ok && k.Value != nil {
-					startOK = constant.Compare(k.Value, token.EQL, constant.MakeInt64(-1))
-					continue
-				}
-				if e != ssa.Value(bo) {
-					stepOK = false
-				}
-			}
-			one, isOne := bo.Y.(*ssa.Const)
-			if startOK && stepOK && isOne && one.Value != nil && constant.Compare(one.Value, token.EQL, constant.MakeInt64(1)) {
-				for _, b := range fn.Blocks {
-					if iff, ok := b.Instrs[len(b.Instrs)-1].(*ssa.If); ok {
-						if r, ok := c34RelOf(iff.Cond, true); ok && r.Op == "<" && r.L == ssa.Value(bo) {
-							if call, ok := r.R.(*ssa.Call); ok && calleeName(&call.Call) == "len" && len(call.Call.Args) == 1 && call.Call.Args[0] == ssa.Value(values) {
-								okRange = true
-							}
-						}
+	isConstInt := func(v ssa.Value, n int64) bool {
+		k, ok := v.(*ssa.Const)
+		return ok && k.Value != nil && constant.Compare(k.Value, token.EQL, constant.MakeInt64(n))
+	}
+	for _, h := range loopHeaders(fn, values.Name()) {
+		cond := h.Instrs[len(h.Instrs)-1].(*ssa.If).Cond.(*ssa.BinOp)
+		if cond.X != idx {
+			continue
+		}
+		switch x := idx.(type) {
+		case *ssa.BinOp: // range form: (phi(-1|self) + 1)
+			if cnt, ok := x.X.(*ssa.Phi); ok && x.Op == token.ADD && isConstInt(x.Y, 1) {
+				good := true
+				for _, e := range cnt.Edges {
+					if !isConstInt(e, -1) && e != ssa.Value(x) {
+						good = false
 					}
 				}
+				okRange = good
 			}
+		case *ssa.Phi: // three-clause form: phi(0|self+1)
+			good := true
+			for _, e := range x.Edges {
+				if isConstInt(e, 0) {
+					continue
+				}
+				if bo, ok := e.(*ssa.BinOp); !ok || bo.Op != token.ADD || bo.X != ssa.Value(x) || !isConstInt(bo.Y, 1) {
+					good = false
+				}
+			}
+			okRange = good
 		}
 	}
 	if !okRange {
-		fail(Violated, "the loop does not visit every element of the argument slice from index 0 (expected a plain `range values`)")
+		fail(Violated, "the loop does not visit every element of the argument slice from index 0 (expected `range values` or `for i := 0; i < len(values); i++`)")
 		return
 	}
 	fail(Held, "accumulator starts at 0, is replaced by values[i] only behind values[i] > accumulator, for i = 0 … len(values)-1; the accumulator is returned")
